@@ -35,6 +35,9 @@ pub struct Case {
     /// encoder that fails after writing this many bytes of the record, per append call (None = healthy)
     #[serde(default)]
     pub enc_fail: Vec<Option<usize>>,
+    /// the configured path is a symbolic link to the (pre-existing) file, as in `current.log -> app-2026.log`
+    #[serde(default)]
+    pub symlink: bool,
 }
 
 fn text_of(len: usize, charset: u8) -> String {
@@ -78,9 +81,9 @@ pub fn strategy() -> impl Strategy<Value = Case> {
         0u8..3,
         prop::collection::vec(op, 1..=25),
         prop_oneof![3 => Just(vec![]), 1 => prop::collection::vec(prop::bool::weighted(0.4), 1..=6)],
-        prop_oneof![4 => Just(vec![]), 1 => prop::collection::vec(prop::option::weighted(0.3, prop_oneof![Just(0usize), 1usize..12, 1000usize..1100]), 1..=25)],
+        (prop_oneof![4 => Just(vec![]), 1 => prop::collection::vec(prop::option::weighted(0.3, prop_oneof![Just(0usize), 1usize..12, 1000usize..1100]), 1..=25)], prop::bool::weighted(0.2)),
     )
-        .prop_map(|(limit, append_mode, pre, count, chunks, charset, ops, flaky, enc_fail)| Case { limit, append_mode, pre, count, chunks, charset, ops, flaky, enc_fail })
+        .prop_map(|(limit, append_mode, pre, count, chunks, charset, ops, flaky, (enc_fail, symlink))| Case { limit, append_mode, symlink: symlink && pre.is_some(), pre, count, chunks, charset, ops, flaky, enc_fail })
 }
 
 pub fn check(tmp: &Path, case: &Case, obs: &mut Obs) -> CaseResult {
@@ -98,7 +101,12 @@ fn check_in(dir: &Path, case: &Case, obs: &mut Obs) -> CaseResult {
     if let Some(d) = case.pre {
         let size = (n as i64 + d).max(0) as usize;
         let content: Vec<u8> = (0..size).map(|i| b'p' + (i % 7) as u8).collect();
-        std::fs::write(&path, &content).unwrap();
+        if case.symlink {
+            std::fs::write(dir.join("app-of-today.log"), &content).unwrap();
+            std::os::unix::fs::symlink("app-of-today.log", &path).unwrap();
+        } else {
+            std::fs::write(&path, &content).unwrap();
+        }
         model_active = Some(content);
     }
     let pre_size = model_active.as_ref().map(|c| c.len()).unwrap_or(0);
@@ -247,6 +255,7 @@ fn check_in(dir: &Path, case: &Case, obs: &mut Obs) -> CaseResult {
     obs.class_if(case.pre.is_some() && !case.append_mode, "pre-existing-content-truncate-mode");
     obs.class_if(case.charset % 3 != 0, "multi-byte-payload");
     obs.class_if(case.chunks.is_some(), "multi-chunk-encoder");
+    obs.class_if(case.symlink, "active-path-is-a-symlink");
     obs.class_if(flaky_hit, "scripted-roller-failure");
     obs.class_if(enc_failed, "encoder-failed-after-partial-write");
     obs.class_if(case.ops.iter().any(|o| matches!(o, Op::Restart)), "restart");
@@ -257,11 +266,121 @@ fn check_in(dir: &Path, case: &Case, obs: &mut Obs) -> CaseResult {
     Ok(())
 }
 
+// ---- several threads: what the policy is shown is what is on disk, at every consultation ------------------------
+
+#[derive(Serialize, Deserialize, Debug, Clone)]
+pub struct Conc {
+    pub limit: u64,
+    pub count: u32,
+    /// message lengths per thread
+    pub threads: Vec<Vec<usize>>,
+    /// the encoder hands the record over in pieces of these sizes and dawdles between them
+    pub chunks: Vec<usize>,
+}
+
+pub fn conc_strategy() -> impl Strategy<Value = Conc> {
+    (
+        prop_oneof![20u64..200, 200u64..3000],
+        1u32..=3,
+        prop::collection::vec(prop::collection::vec(prop_oneof![0usize..60, 200usize..400], 2..=10), 2..=4),
+        prop::collection::vec(prop_oneof![1usize..8, 20usize..200], 1..=3),
+    )
+        .prop_map(|(limit, count, threads, chunks)| Conc { limit, count, threads, chunks })
+}
+
+#[derive(Debug)]
+struct DawdlingEncoder {
+    chunks: Vec<usize>,
+}
+
+impl log4rs::encode::Encode for DawdlingEncoder {
+    fn encode(&self, w: &mut dyn log4rs::encode::Write, record: &log::Record) -> anyhow::Result<()> {
+        let msg = format!("{}", record.args());
+        let b = msg.as_bytes();
+        let (mut i, mut k) = (0, 0);
+        while i < b.len() {
+            let j = (i + self.chunks[k % self.chunks.len()].max(1)).min(b.len());
+            w.write_all(&b[i..j])?;
+            if k == 0 {
+                std::thread::sleep(std::time::Duration::from_micros(60));
+            }
+            i = j;
+            k += 1;
+        }
+        Ok(())
+    }
+}
+
+pub fn check_conc(tmp: &Path, c: &Conc, obs: &mut Obs) -> CaseResult {
+    let dir = scratch(tmp, "c06c");
+    let r = check_conc_in(&dir, c, obs);
+    let _ = std::fs::remove_dir_all(&dir);
+    r
+}
+
+fn check_conc_in(dir: &Path, c: &Conc, obs: &mut Obs) -> CaseResult {
+    let path = dir.join("active.log");
+    let log: Arc<Mutex<Vec<Consultation>>> = Arc::new(Mutex::new(vec![]));
+    let roller = RollSpec::Fixed { base: 0, count: c.count, pattern: "arch.{}.log".into() };
+    let policy = Box::new(ObservingPolicy { inner: make_policy(dir, &TrigSpec::Size(c.limit), &roller).unwrap(), log: log.clone() });
+    let app = log4rs::append::rolling_file::RollingFileAppender::builder()
+        .encoder(Box::new(DawdlingEncoder { chunks: c.chunks.clone() }))
+        .build(&path, policy)
+        .map_err(|e| Failure { sig: "C06:build".into(), msg: e.to_string() })?;
+    let app = Arc::new(app);
+    let mut handles = vec![];
+    for (ti, lens) in c.threads.iter().enumerate() {
+        let (app, lens) = (app.clone(), lens.clone());
+        handles.push(std::thread::spawn(move || -> Result<(), String> {
+            for (s, l) in lens.iter().enumerate() {
+                append_msg(&*app, &record_text(ti as u16 + 1, s as u32, *l)).map_err(|e| e.to_string())?;
+            }
+            Ok(())
+        }));
+    }
+    for h in handles {
+        match h.join() {
+            Ok(Ok(())) => {}
+            Ok(Err(e)) => return fail("C06:append-error", format!("append failed with several writers: {}", e)),
+            Err(_) => return fail("C06:panic", "a writer thread panicked"),
+        }
+    }
+    let cons = log.lock().unwrap().clone();
+    let total: usize = c.threads.iter().map(|t| t.len()).sum();
+    ensure!(cons.len() == total, "C06:consultations", "{} appends from {} threads, the policy was consulted {} times", total, c.threads.len(), cons.len());
+    let mut rolled = 0;
+    for (i, k) in cons.iter().enumerate() {
+        obs.sub_evals += 1;
+        ensure!(
+            k.on_disk == Some(k.len_estimate),
+            "C06:size-accounting",
+            "consultation {} of {} ({} writer threads): the policy was shown {} bytes while the file on disk had {:?} bytes", i, cons.len(), c.threads.len(), k.len_estimate, k.on_disk
+        );
+        let should = k.len_estimate > c.limit;
+        ensure!(
+            !k.exists_after == should,
+            if should { "C06:roll-deferred" } else { "C06:roll-early" },
+            "consultation {} ({} writer threads): {} bytes against a limit of {}: rotation {} but {}", i, c.threads.len(), k.len_estimate, c.limit, if should { "must happen" } else { "must not happen" }, if k.exists_after { "the file stayed" } else { "the file was rolled" }
+        );
+        if should {
+            rolled += 1;
+        }
+    }
+    obs.nontrivial = rolled >= 1;
+    obs.class(format!("threads={}", c.threads.len()));
+    obs.class(format!("rotations-under-contention={}", rolled.min(4)));
+    Ok(())
+}
+
 pub fn run(run: &Run) {
     let tmp = run.tmp.clone();
     let f = move |c: &Case, o: &mut Obs| check(&tmp, c, o);
     run.run_replays::<Case>("size", &f);
     run.search("size", run.tier.pick(2_000, 100_000), strategy(), &f);
+    let tmp = run.tmp.clone();
+    let g = move |c: &Conc, o: &mut Obs| check_conc(&tmp, c, o);
+    run.run_replays::<Conc>("contended", &g);
+    run.search("contended", run.tier.pick(40, 3_000), conc_strategy(), &g);
 }
 
 pub fn replay(part: &str, case: serde_json::Value) -> Option<CaseResult> {
@@ -273,6 +392,13 @@ pub fn replay(part: &str, case: serde_json::Value) -> Option<CaseResult> {
             let _ = std::fs::remove_dir_all(&tmp);
             Some(r)
         }
+        "contended" => {
+            let tmp = std::env::temp_dir().join(format!("lv-replay-{}", std::process::id()));
+            std::fs::create_dir_all(&tmp).ok()?;
+            let r = check_conc(&tmp, &serde_json::from_value(case).ok()?, &mut Obs::default());
+            let _ = std::fs::remove_dir_all(&tmp);
+            Some(r)
+        }
         _ => None,
     }
 }
@@ -280,7 +406,7 @@ pub fn replay(part: &str, case: serde_json::Value) -> Option<CaseResult> {
 pub fn meta() -> EvidenceMeta {
     EvidenceMeta {
         level: "exploration",
-        rule: "cases = limit N in {0,1,2,63,64,1023,1024,1025, random <= 5000} x pre-existing active file (absent / N-1 / N / N+1 / random) x append or truncate mode x window count 1-3 x pattern or multi-chunk encoder x 1-25 operations: appends whose byte length is chosen relative to the room left before the limit (room-3..room+3) or absolute around the 1 KiB buffer, with 1-4-byte characters, and restarts; the real CompoundPolicy(SizeTrigger, FixedWindowRoller) is wrapped in a harness Policy recording len_estimate and fs::metadata().len() at every consultation. Oracle: exactly one consultation per append; len_estimate == on-disk size == model size (pre-existing + records; 0 at open in truncate mode); rotation during this append iff size > N; afterwards the active file is absent or <= N bytes and byte-identical to pre-existing ++ records; the newest archive equals the rolled content. non-trivial = a consultation with |size - N| <= 1, or pre-existing content in append mode, or multi-byte payload, or a scripted roller failure (user-defined roller around the real one that fails on chosen calls and leaves the file in place: accounting and re-triggering must stay exact)".into(),
+        rule: "cases = limit N in {0,1,2,63,64,1023,1024,1025, random <= 5000} x pre-existing active file (absent / N-1 / N / N+1 / random) x append or truncate mode x window count 1-3 x pattern or multi-chunk encoder x 1-25 operations: appends whose byte length is chosen relative to the room left before the limit (room-3..room+3) or absolute around the 1 KiB buffer, with 1-4-byte characters, and restarts; the real CompoundPolicy(SizeTrigger, FixedWindowRoller) is wrapped in a harness Policy recording len_estimate and fs::metadata().len() at every consultation. Oracle: exactly one consultation per append; len_estimate == on-disk size == model size (pre-existing + records; 0 at open in truncate mode); rotation during this append iff size > N; afterwards the active file is absent or <= N bytes and byte-identical to pre-existing ++ records; the newest archive equals the rolled content. The configured path may be a symbolic link to the pre-existing file. Part contended: 2-4 threads append through one appender whose encoder hands records over in pieces and dawdles; at every consultation len_estimate == on-disk size and the file is rolled iff that size > N. non-trivial = a consultation with |size - N| <= 1, or pre-existing content in append mode, or multi-byte payload, or a scripted roller failure (user-defined roller around the real one that fails on chosen calls and leaves the file in place: accounting and re-triggering must stay exact)".into(),
         assumptions: vec!["foreground rotation build".into()],
         mutants_caught: vec![],
     }
